@@ -164,13 +164,11 @@ fn match_dependence(sc: &Scenario, doc: &MVal, sw: u8, hash_seed: u64) -> &'stat
         }
     }
     for id in &idents {
-        for c in [
-            format!("all({})", id),
-            format!("of({}, 0)", id),
-            format!("of({}, 1)", id),
-            format!("of({}, 2)", id),
-            format!("of({}, 3)", id),
-        ] {
+        let mut cands = vec![format!("all({})", id)];
+        for n in 0..=8 {
+            cands.push(format!("of({}, {})", id, n));
+        }
+        for c in cands {
             if try_cond(c) {
                 return if uniform_entries(det.get(id.as_str()), doc) { "match-uniform" } else { "match" };
             }
